@@ -76,7 +76,7 @@ func Load(root string) (*Program, error) {
 	if nerr > 0 {
 		return nil, fmt.Errorf("%d package errors (the tree does not compile)", nerr)
 	}
-	prog, spkgs := ssautil.AllPackages(pkgs, ssa.InstantiateGenerics)
+	prog, spkgs := ssautil.AllPackages(pkgs, ssa.InstantiateGenerics|ssa.GlobalDebug)
 	prog.Build()
 	P := &Program{Prog: prog, Pkgs: pkgs, SSA: map[string]*ssa.Package{}, Funcs: map[string]*ssa.Function{}, Root: root}
 	if len(pkgs) > 0 {
